@@ -26,6 +26,7 @@ PROPS = {
     },
     "C04": {
         "units": ["U1", "U4", "U3"],
+        "kani": ["U2b"],
         "level": "proof",
         "witness": [
             (r"alloc", "alloc"),
@@ -211,10 +212,13 @@ PROPS = {
         "explanation": "The three conversions of proto.rs (Target -> wire Target, wire Target -> Target, wire Address -> SocketAddr) are extracted and verified: "
                        "the wire message carries the identifier and (canonical IP text, port); the way back yields Ok exactly for a present address whose host "
                        "parses as an IP and whose port is <= 65535, with that identifier, IP and port; lemma_round_trip composes the two contracts: every "
-                       "IPv4 and IPv6 target comes back with the same identifier and socket address; missing address, bad host and port > 65535 are errors.",
-        "not_covered": ["metadata (HashMap <-> repeated MetaEntry through iterator adaptors: havoc, R17)",
-                        "the SelectRequest / StatusRequest assembly in strategy_adapter.rs / status_adapter.rs and the tonic transport",
+                       "IPv4 and IPv6 target comes back with the same identifier and socket address; missing address, bad host and port > 65535 are errors. "
+                       "Metadata: the two `iter().map(..).collect()` chains are written out as the loops FromIterator runs (R32) over a model of HashMap<String,String> "
+                       "(finite map; iter() yields every entry once in some order; collecting inserts in order) and verified with loop invariants: the wire entries denote "
+                       "exactly the target's map, and the map built from wire entries is entries_map(entries); the round trip preserves the map.",
+        "not_covered": ["the SelectRequest / StatusRequest assembly in strategy_adapter.rs / status_adapter.rs and the tonic transport",
                         "that the prost-generated structs match adapter.proto (mirrored by hand in the prelude)"],
-        "assumptions": ["std: IpAddr::from_str(ip.to_string()) == Ok(ip); IpAddr::from_str / u16::try_from reject everything else as specified"],
+        "assumptions": ["std: IpAddr::from_str(ip.to_string()) == Ok(ip); IpAddr::from_str / u16::try_from reject everything else as specified",
+                        "HashMap<String,String> behaves like the finite-map model of units/U10/prelude.rs (iteration visits each entry once; FromIterator inserts in order)"],
     },
 }
